@@ -29,6 +29,9 @@ HANDLED_SITES = {
     "Unit._multiply": "mul", "Unit._divide": "div", "Unit.__pow__": "pow", "Unit.root": "root",
     "Unit.as_ratio": "ratio", "Unit.quantify": "quantify", "Prefix.__mul__": "prefix_mul",
     "Unit.define": "define", "Unit.__from_json__": "from_json",
+    # the parser's semantic callbacks (they do unit arithmetic; a rewrite may call the constructor)
+    "parsing.py:QuantityTransformer.unit_sequence": "parser", "parsing.py:QuantityTransformer.unit": "parser",
+    "parsing.py:QuantityTransformer.term": "parser",
 }
 
 
@@ -179,6 +182,14 @@ def run_site(site: str, mode: Tuple, nfac: Tuple[int, int], pbase: int,
         if site == "prefix_mul":
             p = im.shadow_prefix(pbase or 10, SInt(z3.Int("q_p")))
             return (p * a,)
+        if site == "parser":
+            from measured import parsing
+
+            T = parsing.QuantityTransformer
+            tr = T()
+            powered = a ** n                      # what `term` does with a resolved symbol
+            seq = T.unit_sequence.base_func(tr, powered, b)
+            return (powered, seq, T.unit.base_func(tr, seq, b), T.unit.base_func(tr, a))
         if site == "from_json":
             # what the JSON decoder hands over for a unit that satisfies Inv (nested objects are
             # decoded bottom-up); dimensions built on the way are interned for real (AssocTable:
@@ -242,6 +253,8 @@ def _replay(site: str, base_lines: List[str], nfac: Tuple[int, int], pbase: int,
     op = {"mul": "a * b", "div": "a / b", "pow": f"a ** {n}", "root": f"a.root({n})",
           "ratio": "(format(a, '/'), a.as_ratio())[1]", "quantify": "a.quantify().unit",
           "prefix_mul": f"measured.Prefix({pbase or 10}, {m.get('q_p', 1)}) * a",
+          "parser": f"(lambda T, tr: (T.unit_sequence.base_func(tr, a ** {n}, b), T.unit.base_func(tr, a ** {n}, b)))"
+                    "(measured.parsing.QuantityTransformer, measured.parsing.QuantityTransformer())",
           "from_json": "measured.Unit.__from_json__({'__measured__': 'Unit', 'name': None, 'symbol': None, "
                        "'dimension': DIM, 'prefix': PRE, 'factors': FACTORS})"}[site]
     return families.REPLAY_IMPORTS + "\n".join(base_lines) + f"""
@@ -332,8 +345,9 @@ def worker(task: Tuple) -> Dict[str, Any]:
                 acc.ob("unknown", name, key)
                 continue
             # small integer model for the replay
-            vs = sorted({str(d): d for d in mdl.decls()}.items())
-            ints = [z3.Int(nm) for nm, d in vs if d.range() == z3.IntSort() and d.arity() == 0]
+            # every integer variable of the query (a model may leave don't-cares out)
+            ints = sorted({str(v): v for e_ in (p.cond, goal) for v in z3_vars(e_)
+                           if v.sort() == z3.IntSort()}.values(), key=str)
             sm = None
             # prefer exponents of magnitude >= 2: a part that is a bare registered unit is
             # returned from the real table (present path) and does not show the defect
@@ -471,7 +485,7 @@ def tasks_for(tier: str) -> List[Tuple]:
     tasks: List[Tuple] = []
     pos_sets = [(1, 2, 3), (4, 5, 6), (7, 8, 9)] if tier == "quick" else \
         list(itertools.combinations(range(1, n), 3))[::4]
-    for site in ("mul", "div", "pow", "ratio", "quantify", "prefix_mul", "from_json"):
+    for site in ("mul", "div", "pow", "ratio", "quantify", "prefix_mul", "from_json", "parser"):
         for ps in pos_sets:
             for nfac in ((2, 2), (1, 1), (3, 1)) if tier == "thorough" else ((2, 2),):
                 for pb in ((10, 0) if tier == "quick" else (10, 2, 0)):
@@ -479,7 +493,7 @@ def tasks_for(tier: str) -> List[Tuple]:
                         tasks.append((site, ("sym", ps), nfac, pb))
     real_sets = REAL_BASE_SETS if tier == "thorough" else REAL_BASE_SETS[:4]
     for names in real_sets:
-        for site in ("pow", "ratio", "mul", "div", "from_json"):
+        for site in ("pow", "ratio", "mul", "div", "from_json", "parser"):
             for nfac in ((3, 1), (2, 2), (1, 1)):
                 if site in ("pow", "ratio") and nfac == (2, 2) and tier == "quick":
                     continue
